@@ -181,7 +181,12 @@ where
     T: CBOREncodable,
 {
     fn into_envelope(self) -> Envelope {
-        Envelope::new(CBOR::from(self))
+        // A `HashSet` iterates in an order that differs from one instance to
+        // the next, so its elements are put into the order `dcbor::Set` uses
+        // (ascending encoded form): equal sets then give equal envelopes.
+        let mut elements: Vec<CBOR> = self.into_iter().map(|element| element.into()).collect();
+        elements.sort_by_cached_key(|element| element.to_cbor_data());
+        Envelope::new(CBOR::from(elements))
     }
 }
 
